@@ -81,6 +81,8 @@ end Cls
 /-- all outcomes an operation can have on members of the argument classes -/
 def Res (α : Type) := List (Except Exc α)
 
+instance : Membership (Except Exc α) (Res α) := inferInstanceAs (Membership (Except Exc α) (List (Except Exc α)))
+
 namespace Res
 def ret (a : α) : Res α := [.ok a]
 def raise (e : Exc) : Res α := [.error e]
